@@ -298,3 +298,75 @@ def rule_options(ctx, R, fi, worker=None):
     if k < 1:
         ctx.fail(f"{fi.qualname}: no loop over the N-1 cases found")
     return n
+
+
+def rule_cause_index(ctx, R, fu):
+    """cause_index is a label of the outaged table: wherever it is compared with an index array, that array is the index of
+    contingency_results[cause_element] - or of contingency_results[element] under the condition element == cause_element"""
+    pm = {}
+    for p in ast.walk(fu.node):
+        for c in ast.iter_child_nodes(p):
+            pm[c] = p
+    n = 0
+    for cmp_ in ast.walk(fu.node):
+        if not (isinstance(cmp_, ast.Compare) and len(cmp_.ops) == 1 and isinstance(cmp_.ops[0], (ast.Eq, ast.NotEq))):
+            continue
+        sides = [cmp_.left, cmp_.comparators[0]]
+        if not any(isinstance(s, ast.Name) and s.id == "cause_index" for s in sides):
+            continue
+        other = next(s for s in sides if not (isinstance(s, ast.Name) and s.id == "cause_index"))
+        m = re.match(r"contingency_results\[(\w+)\]\[['\"]index['\"]\]$", ast.unparse(other))
+        if not m:
+            continue
+        n += 1
+        tab = m.group(1)
+        guarded = False
+        node = cmp_
+        while node in pm:
+            par = pm[node]
+            if isinstance(par, ast.If) and node in par.body and re.search(r"\belement == cause_element\b|\bcause_element == element\b", ast.unparse(par.test)):
+                guarded = True
+            node = par
+        ok = tab == "cause_element" or (tab == "element" and guarded)
+        ctx.ob(R, f"{fu.module.name}::{fu.qualname}::cause-index@{norm(cmp_, 50)}#{n}", ok,
+               f"`{norm(cmp_, 70)}` compares the outage label with the index of its own table" if ok else
+               f"`{norm(cmp_, 90)}` compares the label of the outaged {'{cause_element}'} with the index of the table `{tab}`"
+               + ("" if tab == "cause_element" else " without the condition element == cause_element") +
+               ": an element of another type that happens to carry the same index label is treated as the outaged one", fu.loc(cmp_))
+    return n
+
+
+def rule_setup(ctx, R, fi):
+    """result set-up of run_contingency(_parallel): recycle forced off, object dtype for the cause names, all tables written"""
+    fn = fi.node
+    rec = [st for st in ast.walk(fn) if isinstance(st, (ast.Assign, ast.Expr, ast.Delete)) and "recycle" in ast.unparse(st)]
+    forced = any((isinstance(st, ast.Assign) and re.fullmatch(r"kwargs\[['\"]recycle['\"]\]", ast.unparse(st.targets[0])) and
+                  isinstance(st.value, ast.Constant) and not st.value.value) or
+                 (isinstance(st, ast.Expr) and re.match(r"kwargs\.pop\(['\"]recycle['\"]", ast.unparse(st.value))) or
+                 isinstance(st, ast.Delete) for st in rec)
+    soft = [st for st in rec if isinstance(st, ast.Expr) and "setdefault" in ast.unparse(st)]
+    ok = forced and not soft
+    ctx.ob(R, f"{fi.module.name}::{fi.qualname}::recycle-off", ok,
+           "a recycle option of the caller is overwritten with False" if ok else
+           ("`" + norm(soft[0], 70) + "` keeps a recycle option passed by the caller" if soft else "no statement forces recycle off") +
+           ": with recycle the power flow re-uses the stored model and never sees the outage, every N-1 case repeats the base case",
+           fi.loc(soft[0] if soft else (rec[0] if rec else None)))
+    for d in ast.walk(fn):
+        if isinstance(d, ast.Dict):
+            for k, v in zip(d.keys, d.values):
+                if isinstance(k, ast.Constant) and k.value == "cause_element" and isinstance(v, ast.Call):
+                    dt = kwarg(v, "dtype")
+                    txt = ast.unparse(dt) if dt is not None else ""
+                    ok = txt in ("object", "'object'", '"object"', "'O'", '"O"', "np.object_")
+                    ctx.ob(R, f"{fi.module.name}::{fi.qualname}::cause-element-dtype", ok,
+                           "cause names are stored in an object array" if ok else
+                           f"cause_element is created with dtype={txt or '<inferred>'}: a fixed-width or numeric array truncates or rejects "
+                           "element type names ('trafo3w' becomes 'trafo')", fi.loc(v))
+    wr = next((n for n in ast.walk(fn) if isinstance(n, ast.If) and ast.unparse(n.test) == "write_to_net"), None)
+    if wr is not None:
+        skips = [x for x in ast.walk(wr) if isinstance(x, ast.If) and any(isinstance(y, (ast.Continue, ast.Break)) for y in x.body)
+                 and "nminus1_cases" in ast.unparse(x.test)]
+        ctx.ob(R, f"{fi.module.name}::{fi.qualname}::write-all-tables", not skips,
+               "results of every monitored table are written" if not skips else
+               f"`{norm(skips[0].test, 70)}` skips tables without an outage in the case list: their elements are monitored (and can be the most "
+               "loaded ones) but get no result columns", fi.loc(skips[0]) if skips else fi.loc(wr))
